@@ -306,7 +306,7 @@ def main():
         for line in open(a.out):
             done.add(json.loads(line)["id"])
     rng = random.Random(a.seed)
-    todo = [m for m in allm if m[0] not in done]
+    todo = [m for m in allm if m[0] not in done and not unclaimed(m[0])]
     if a.only:
         ids = set(x.strip() for x in (open(a.only).read().split("\n") if os.path.exists(a.only)
                                       else a.only.split(",")) if x.strip())
@@ -338,7 +338,96 @@ def main():
     return 0
 
 
+# code no property claims (DESIGN.md 10): (file, first line, last line, marker expected on the first line, why)
+UNCLAIMED = [
+    ("dyngraph.py", 1243, 1262, "# interaction inter event", "inter-event distribution of one pair (not in C17's list)"),
+    ("dyndigraph.py", 1495, 1517, "# interaction inter event", "inter-event distribution of one pair"),
+    ("dyndigraph.py", 1575, 1597, "# interaction inter event", "inter-event distribution of one pair"),
+    ("dyndigraph.py", 1654, 1679, "# interaction inter event", "inter-event distribution of one pair"),
+    ("dyngraph.py", 1495, 1520, "def remove_edge", "bodies / signatures of the blocked mutators (stubs)"),
+    ("dyndigraph.py", 1696, 1738, "def remove_edge", "bodies / signatures of the blocked mutators (stubs)"),
+    ("paths.py", 191, 191, '"_".join', "node ids containing '_' (outside the quantifier of C12-C15)"),
+    ("paths.py", 198, 199, "t = v[-1]", "node ids containing '_'"),
+    ("assortativity.py", 27, 28, "isinstance(a_u, dict)", "time-varying labels (outside the quantifier of C20)"),
+    ("assortativity.py", 36, 41, "isinstance(a_v, dict)", "time-varying labels"),
+    ("assortativity.py", 52, 53, "isinstance(a_x, dict)", "time-varying labels"),
+    ("assortativity.py", 65, 76, "def __distance", "label hierarchies (outside the quantifier of C20)"),
+    ("function.py", 467, 568, "def subgraph", "subgraph / create_empty_copy / attribute helpers: in no property"),
+    ("misc.py", 1, 60, "", "Python 2 fall-backs, dead on Python 3"),
+    ("decorators.py", 143, 162, "except TypeError", "keyword path branch: unreachable (the `decorator` package passes "
+     "every argument positionally)"),
+    ("decorators.py", 177, 180, "else:", "path neither a string nor readable: no reader / writer accepts that"),
+]
+
+
+def unclaimed(mid):
+    base, line = mid.split(":")[0], int(mid.split(":")[1])
+    for f, lo, hi, marker, why in UNCLAIMED:
+        if f == base and lo <= line <= hi:
+            return why
+    return None
+
+
+def check_unclaimed_table():
+    """the table is keyed by line numbers: fail loudly when the source moved"""
+    bad = []
+    for f, lo, hi, marker, why in UNCLAIMED:
+        rel = [x for x in FILES if x.endswith("/" + f)][0]
+        lines = open(os.path.join(mutants.REPO, rel), encoding="utf-8").read().split("\n")
+        if marker and marker not in lines[lo - 1]:
+            bad.append("%s:%d does not contain %r: %r" % (f, lo, marker, lines[lo - 1].strip()[:60]))
+    return bad
+
+
 def report(path):
+    bad = check_unclaimed_table()
+    if bad:
+        print("UNCLAIMED table out of date:\n  " + "\n  ".join(bad))
+        return 2
+    triage_path = os.path.join(os.path.dirname(path), "TRIAGE.json")
+    triage = json.load(open(triage_path)) if os.path.exists(triage_path) else {}
+    rows = {}
+    for l in open(path):
+        r = json.loads(l)
+        rows[r["id"]] = r          # a later line (e.g. the full quick stage) supersedes an earlier one
+    rows = list(rows.values())
+    for r in rows:
+        if r["status"] == "survived":
+            why = unclaimed(r["id"])
+            if why:
+                r["status"] = "survived: unclaimed code"
+                r["why"] = why
+            elif r["id"] in triage:
+                r["status"] = "survived: " + triage[r["id"]][0]
+                r["why"] = triage[r["id"]][1]
+    by = {}
+    for r in rows:
+        by.setdefault(r["status"], []).append(r)
+    alive = [r for r in rows if r["status"] not in ("killed-by-tests", "not-rendered")]
+    caught = [r for r in alive if r["status"].startswith("caught")]
+    lines = ["# Systematic single-change mutants (tools/automut.py)", "",
+             "%d mutants drawn; %d do not pass the repository's own tests (not counted); of the %d that do:"
+             % (len(rows), len(rows) - len(alive), len(alive)), ""]
+    for k in sorted(by):
+        if k not in ("killed-by-tests", "not-rendered"):
+            lines.append("* %s: %d" % (k, len(by[k])))
+    lines += ["", "Caught by property: " + ", ".join(
+        "%s %d" % (p, sum(1 for r in caught if p in r.get("by", []))) for p in PRIORITY
+        if any(p in r.get("by", []) for r in caught)), ""]
+    for k in sorted(by):
+        if not k.startswith("survived"):
+            continue
+        lines += ["## " + k, ""]
+        for r in sorted(by[k], key=lambda r: r["id"]):
+            lines.append("- `%s`%s" % (r["id"], (" - " + r["why"]) if r.get("why") else ""))
+        lines.append("")
+    out = os.path.join(os.path.dirname(path), "REPORT.md")
+    open(out, "w").write("\n".join(lines) + "\n")
+    print("\n".join(lines[:14]))
+    return 0
+
+
+def _old_report(path):
     rows = [json.loads(l) for l in open(path)]
     by = {}
     for r in rows:
